@@ -11,6 +11,7 @@ func C03(run *report.Run) {
 	c03Sequential(run, acc, st)
 	c03Schedules(run, acc)
 	c03Synctest(run)
+	c03Histories(run)
 	acc.flush(run)
 	run.Evals = st.evals + st.retries
 	run.Distinct = st.failing
